@@ -34,7 +34,7 @@ type Target struct {
 	Emit    []string `json:"emit,omitempty"`
 	Prints  []string `json:"prints,omitempty"`  // print() calls made before the emitted chunks
 	FwdDeps []int    `json:"fwddeps,omitempty"` // extra dependency labels on targets with the same or a higher ID (cycles; not read by the body)
-	Doc     int      `json:"doc,omitempty"` // docstring variant (0 = none)
+	Doc     int      `json:"doc,omitempty"`     // docstring variant (0 = none)
 	Removed bool     `json:"removed,omitempty"`
 }
 
